@@ -740,7 +740,7 @@ def check_case(ctx, c, replay, lines, pending, tag):
 def run(ctx):
     rng = ctx.rng
     drv = core.Driver(DRIVER)
-    boost = 2 if getattr(ctx, "search_boost", False) else 1
+    boost = 1.5 if getattr(ctx, "search_boost", False) else 1
     stderr_keep = sys.stderr
     lines, pending = [], []
 
@@ -750,7 +750,7 @@ def run(ctx):
         check_case(ctx, c, {"stream": "corpus", "file": it["_file"], "id": it.get("id"), "case": it}, lines, pending, "corpus")
 
     # ---- stream 1: logging calls on the real handler: direct oracle + model line
-    n1 = ctx.n(5000, 300000) * boost
+    n1 = int(ctx.n(5000, 60000) * boost)
     for i in range(n1):
         seed = rng.next()
         c = gen_case(seed)
@@ -794,12 +794,12 @@ def run(ctx):
 
     # ---- stream 3: Python-semantics streams against CPython's json (string level)
     sem_lines, sem_exp = [], []
-    for i in range(ctx.n(3000, 100000)):
+    for i in range(ctx.n(3000, 30000)):
         s = gen_text(rng, 16)
         ea = rng.chance(30)
         sem_lines.append("esc %d %s" % (int(ea), enc(s)))
         sem_exp.append(("json.dumps(%r, ensure_ascii=%r)" % (s, ea), "ok " + enc(json.dumps(s, ensure_ascii=ea))))
-    for i in range(ctx.n(3000, 100000)):
+    for i in range(ctx.n(3000, 30000)):
         tok = gen_json_string_token(rng)
         exp = py_scanstring(tok)
         if exp is None:
@@ -810,7 +810,7 @@ def run(ctx):
 
     def st(name):
         hist[name] = hist.get(name, 0) + 1
-    for i in range(ctx.n(2500, 100000)):
+    for i in range(ctx.n(2500, 30000)):
         v = gen_value(rng, st)
         ea, df = rng.chance(15), not rng.chance(10)
         try:
@@ -857,7 +857,7 @@ def run(ctx):
             ctx.violation("implementation and model disagree on the serialised line: impl %s, model %s  [message=%r]"
                           % (show(impl)[:200], show(m)[:200], c["message"][:60]),
                           dict(rep, expected=show(m), observed=show(impl)), kind="correspondence")
-        elif impl.startswith("ok "):
+        elif impl.startswith("ok ") and dec(impl[3:]).endswith("\n"):
             loads_lines.append("loads " + enc(dec(impl[3:])[:-1]))
     for (rep, exp), m in zip(col_exp, o2):
         ctx.evaluations += 1
@@ -876,7 +876,7 @@ def run(ctx):
                           "%s\nexpected %s\nmodel    %s" % (what, show(exp), show(m)))
     # ---- model `loads` on the real handler outputs: must parse and re-dump to the identical text
     if loads_lines:
-        step = max(1, len(loads_lines) // ctx.n(1500, 50000))
+        step = max(1, len(loads_lines) // ctx.n(1500, 10000))
         sel = loads_lines[::step]
         o4 = drv.run(sel)
         badl = 0
